@@ -80,18 +80,33 @@ func (o *Obligation) BuildQuery() string {
 		addTokens(a)
 	}
 	addTokens(goal)
-	// closure over define-fun-rec bodies
-	for changed := true; changed; {
-		changed = false
-		for _, n := range x.decls.order {
-			d := x.decls.decl[n]
-			if used[n] && strings.HasPrefix(d, "(define-fun") && !used["\x00"+n] {
-				used["\x00"+n] = true
-				addTokens(d)
-				changed = true
+	// closure over define-fun(-rec) bodies: only symbols that are used can pull in more
+	work := make([]string, 0, len(used))
+	for t := range used {
+		work = append(work, t)
+	}
+	for len(work) > 0 {
+		t := work[len(work)-1]
+		work = work[:len(work)-1]
+		d, ok := x.decls.decl[t]
+		if !ok || !strings.HasPrefix(d, "(define-fun") {
+			continue
+		}
+		for _, u := range tokensOf(d) {
+			if !used[u] {
+				used[u] = true
+				work = append(work, u)
 			}
 		}
 	}
+	// declarations of the used symbols, in creation order
+	var declIdx []int
+	for t := range used {
+		if i, ok := x.decls.index[t]; ok {
+			declIdx = append(declIdx, i)
+		}
+	}
+	sort.Ints(declIdx)
 	// implements-facts and reflect.Type facts
 	x.P.mu.Lock()
 	var inames []string
@@ -144,13 +159,15 @@ func (o *Obligation) BuildQuery() string {
 	var sb strings.Builder
 	sorts := map[string]bool{}
 	_ = extraDecl
-	all := body
-	for _, n := range x.decls.order {
-		if used[n] {
-			all += "\n" + x.decls.decl[n]
-		}
+	var declText strings.Builder
+	for _, i := range declIdx {
+		declText.WriteString(x.decls.decl[x.decls.order[i]])
+		declText.WriteByte('\n')
 	}
-	for _, s := range sortRe.FindAllString(all, -1) {
+	for _, s := range sortRe.FindAllString(body, -1) {
+		sorts[s] = true
+	}
+	for _, s := range sortRe.FindAllString(declText.String(), -1) {
 		sorts[s] = true
 	}
 	var sl []string
@@ -170,12 +187,7 @@ func (o *Obligation) BuildQuery() string {
 	if used["conv_E_uintptr_Int"] && used["conv_Int_E_uintptr"] {
 		facts = append(facts, "(forall ((c!s Int)) (= (conv_E_uintptr_Int (conv_Int_E_uintptr c!s)) c!s))")
 	}
-	for _, n := range x.decls.order {
-		if used[n] {
-			sb.WriteString(x.decls.decl[n])
-			sb.WriteByte('\n')
-		}
-	}
+	sb.WriteString(declText.String())
 	// literal constants of one abstract sort denote pairwise different values
 	litsBySort := map[string][]string{}
 	for t := range used {
